@@ -157,6 +157,30 @@ MsToLr(pp, sm, ss, pr, fs, fl, x1, x2) ==
       npp |-> << S16(pr[1]), S16(pr[2]) >>,                                          \* pred_prev_Q13 := pred_Q13 (16-bit field)
       nsm |-> << X1[fl + 1], X1[fl + 2] >>, nss |-> << X2[fl + 1], X2[fl + 2] >>]
 
+(* the encoder's counterpart, silk_stereo_LR_to_MS (stereo_LR_to_MS.c): basic mid/side (:63-69), history (:71-75), and the      *)
+(* interpolated prediction that is SUBTRACTED from the side signal while the width is cross-faded (:197-224).  Which predictors  *)
+(* and which width the encoder settles on (:93-181) is its own business: they enter here as the state it leaves behind            *)
+(* (pq = pred_prev_Q13 after the call, wq = width_prev_Q14 after the call).  l, r: fl+2 input samples starting at x[-2].          *)
+LrSide(M, S, p0, p1, w, n) ==
+  LET sum == (M[n + 1] + M[n + 3] + 2 * M[n + 2]) * 512
+      a == SMLAWB(SMULWB(w, S[n + 2]), sum, p0)
+      b == SMLAWB(a, M[n + 2] * 2048, p1)
+  IN Sat16(RShiftRound(b, 8))
+LrToMs(pp, sm, ss, wp, pq, wq, fs, fl, xl, xr) ==
+  LET midraw == [k \in 1..(fl + 2) |-> S16(RShiftRound(xl[k] + xr[k], 1))]
+      sideraw == [k \in 1..(fl + 2) |-> Sat16(RShiftRound(xl[k] - xr[k], 1))]
+      M == [k \in 1..(fl + 2) |-> IF k <= 2 THEN sm[k] ELSE midraw[k]]
+      S == [k \in 1..(fl + 2) |-> IF k <= 2 THEN ss[k] ELSE sideraw[k]]
+      N == InterpLen(fs)
+      d0 == -InterpDelta(pp[1], pq[1], fs)
+      d1 == -InterpDelta(pp[2], pq[2], fs)
+      dw == SMULWB(wq - wp, DenomQ16(fs)) * 1024
+  IN [mid |-> M,
+      res |-> [k \in 1..fl |-> LET n == k - 1 IN
+                 IF n < N THEN LrSide(M, S, -pp[1] + (n + 1) * d0, -pp[2] + (n + 1) * d1, wp * 1024 + (n + 1) * dw, n)
+                 ELSE LrSide(M, S, -pq[1], -pq[2], wq * 1024, n)],
+      nsm |-> << M[fl + 1], M[fl + 2] >>, nss |-> << S[fl + 1], S[fl + 2] >>]
+
 -----------------------------------------------------------------------------
 (* (d) LTP: decode_parameters.c:52-80 *)
 LtpIdxOK(per, idx) == per \in 0..(NbCbk - 1) /\ \A k \in 1..Len(idx) : idx[k] \in 0..(CbkSize(per) - 1)
